@@ -12,16 +12,20 @@ package hooks
 
 import (
 	"bytes"
+	"context"
 	"encoding/json"
 	"errors"
 	"fmt"
 	"io"
+	"net"
 	"net/http"
+	"net/http/httptest"
 	"os"
 	"reflect"
 	"sort"
 	"strconv"
 	"strings"
+	"sync"
 	"testing"
 	"time"
 	"unsafe"
@@ -34,12 +38,14 @@ import (
 	"metacontroller/pkg/logging"
 
 	"github.com/go-logr/logr"
+	metav1 "k8s.io/apimachinery/pkg/apis/meta/v1"
 	"k8s.io/apimachinery/pkg/apis/meta/v1/unstructured"
 	kjson "sigs.k8s.io/json"
 	"zgo.at/zcache/v2"
 )
 
-const c19URL = "http://c19.verif.invalid/hook"
+const c19Host = "c19.verif.invalid"
+const c19URL = "http://" + c19Host + "/hook"
 
 var c19Base = time.Date(2024, 1, 2, 3, 4, 5, 0, time.UTC)
 
@@ -217,7 +223,7 @@ type c19Case struct {
 	Family     string    `json:"family"`
 	Etag       bool      `json:"etag"`
 	Mode       string    `json:"mode"`   // nil | loose | strict | other
-	Public     bool      `json:"public"` // build the executor with NewWebhookExecutor (http.DefaultTransport scripted)
+	Public     bool      `json:"public"` // build the executor with NewWebhookExecutor; it talks real HTTP to the in-process server
 	TimeoutSec int       `json:"timeoutSec"`
 	CleanupSec int       `json:"cleanupSec"` // -1: nil pointer
 	NowFracMs  int       `json:"nowFracMs"`
@@ -317,18 +323,124 @@ func (c *c19Client) Do(req *http.Request) (*http.Response, error) {
 		Header: h, Body: body, ContentLength: -1, Request: req}, nil
 }
 
-// http.DefaultTransport while the test runs: routes to the client of the running case
-type c19Router struct{ cur *c19Client }
+// The real local HTTP server every executor built by NewWebhookExecutor talks to.
+// http.DefaultTransport is, while the test runs, a genuine *http.Transport whose
+// DialContext sends the hook host to this server: code that type-asserts or clones
+// the default transport keeps working, and the exchange is real HTTP/1.1 over TCP.
+type c19Server struct {
+	srv   *httptest.Server
+	mu    sync.Mutex
+	cur   *c19Client // scripted case in progress
+	timed map[int]*c19TimedRun
+}
 
-func (r *c19Router) RoundTrip(req *http.Request) (*http.Response, error) {
-	if r.cur == nil {
-		return nil, errors.New("c19: no case running")
+func c19NewServer() *c19Server {
+	s := &c19Server{timed: map[int]*c19TimedRun{}}
+	s.srv = httptest.NewServer(s)
+	return s
+}
+
+func (s *c19Server) transport() *http.Transport {
+	addr := s.srv.Listener.Addr().String()
+	d := &net.Dialer{Timeout: 10 * time.Second}
+	return &http.Transport{
+		DisableKeepAlives: true, // one connection per call: an aborted answer is never retried on a reused one
+		DialContext: func(ctx context.Context, network, a string) (net.Conn, error) {
+			if strings.HasPrefix(a, c19Host+":") {
+				a = addr
+			}
+			return d.DialContext(ctx, network, a)
+		},
 	}
-	return r.cur.Do(req)
+}
+
+func (s *c19Server) setCurrent(c *c19Client) {
+	s.mu.Lock()
+	s.cur = c
+	s.mu.Unlock()
+}
+
+func (s *c19Server) ServeHTTP(w http.ResponseWriter, r *http.Request) {
+	data, _ := io.ReadAll(r.Body)
+	var m struct {
+		CallID int `json:"callId"`
+		Timed  int `json:"timed"`
+	}
+	_ = json.Unmarshal(data, &m)
+	s.mu.Lock()
+	cur, run := s.cur, s.timed[m.Timed]
+	s.mu.Unlock()
+	switch {
+	case m.Timed > 0 && run != nil:
+		run.serve(w, r)
+	case m.Timed == 0 && cur != nil && m.CallID >= 0 && m.CallID < len(cur.slots):
+		cur.serve(w, r, cur.slots[m.CallID])
+	default:
+		http.Error(w, "c19: unroutable request", http.StatusTeapot)
+	}
+}
+
+// the scripted reply over real HTTP. A transport error is an aborted connection before
+// any byte of the answer; an unreadable body is a connection aborted in mid-body.
+func (c *c19Client) serve(w http.ResponseWriter, r *http.Request, s *c19Slot) {
+	s.sent = r.Header.Get(headerIfNoneMatch)
+	s.nsent = len(r.Header.Values(headerIfNoneMatch))
+	s.entered <- struct{}{}
+	<-s.release
+	rp := s.reply
+	if rp.Transport {
+		panic(http.ErrAbortHandler)
+	}
+	c19WriteHead(w, rp)
+	text := []byte(rp.Body.text())
+	if rp.ReadFail {
+		w.Header().Set("Content-Length", strconv.Itoa(len(text)))
+		w.WriteHeader(rp.Status)
+		_, _ = w.Write(text[:len(text)/2])
+		w.(http.Flusher).Flush()
+		panic(http.ErrAbortHandler)
+	}
+	w.WriteHeader(rp.Status)
+	_, _ = w.Write(text) // refused by the server for 204 / 304: those have no body
+}
+
+func c19WriteHead(w http.ResponseWriter, rp c19Reply) {
+	h := w.Header()
+	h.Set("Content-Type", "application/json")
+	if rp.ETag != "" {
+		h.Set(headerETag, rp.ETag)
+	}
+	if v, ok := rp.retryHeader(); ok {
+		h.Set("Retry-After", v)
+	}
+}
+
+// what real HTTP can carry: the scripted client stays in charge of the rest
+func (cs *c19Case) fitForHTTP() {
+	if !cs.Public {
+		return
+	}
+	for i := range cs.Calls {
+		rp := &cs.Calls[i].Reply
+		if rp.Transport {
+			continue
+		}
+		if rp.Status < 200 || rp.Status > 599 {
+			cs.Public = false // not a final status a server can send
+			return
+		}
+		if rp.ReadFail && (rp.Status == 204 || rp.Status == 304) {
+			rp.ReadFail = false // no body to fail in
+		}
+		if strings.TrimSpace(rp.RAText) != rp.RAText {
+			rp.RAText = strings.TrimSpace(rp.RAText) + "x" // HTTP trims white space around header values
+		}
+	}
 }
 
 type c19Request struct {
 	CallID int                        `json:"callId"`
+	Timed  int                        `json:"timed,omitempty"`
 	Parent *unstructured.Unstructured `json:"parent"`
 }
 
@@ -382,7 +494,7 @@ func c19Mode(m string) *v1alpha1.ResponseUnmarshallMode {
 	return &v
 }
 
-func c19Run(t *testing.T, router *c19Router, cs *c19Case) c19Obs {
+func c19Run(t *testing.T, router *c19Server, cs *c19Case) c19Obs {
 	cl := &c19Client{}
 	for _, c := range cs.Calls {
 		cl.slots = append(cl.slots, &c19Slot{entered: make(chan struct{}, 1), release: make(chan struct{}, 1),
@@ -392,8 +504,8 @@ func c19Run(t *testing.T, router *c19Router, cs *c19Case) c19Obs {
 	var exec *webhookExecutor
 	var etagAbs *webhookExecutorEtag
 	if cs.Public {
-		router.cur = cl
-		defer func() { router.cur = nil }()
+		router.setCurrent(cl)
+		defer router.setCurrent(nil)
 		url := c19URL
 		wh := &v1alpha1.Webhook{URL: &url, ResponseUnmarshallMode: c19Mode(cs.Mode)}
 		if cs.Etag {
@@ -1163,6 +1275,253 @@ func c19Corpus() []*c19Case {
 	return out
 }
 
+// ---------------------------------------------------------------- timed cases
+
+// One exchange with scripted timing against the real server, through the executor
+// NewWebhookExecutor builds for a webhook with a short timeout.
+type c19Timed struct {
+	Scenario  string   `json:"scenario"`
+	Etag      bool     `json:"etag"`
+	Mode      string   `json:"mode"`
+	TimeoutMs int      `json:"timeoutMs"`
+	HeadersMs int      `json:"headersMs"` // -1: never
+	DoneMs    int      `json:"doneMs"`    // -1: never; otherwise when the last body byte is sent
+	StallAt   int      `json:"stallAt"`   // body bytes sent with the headers before stalling / trickling
+	TrickleMs int      `json:"trickleMs"` // > 0: one byte per TrickleMs after StallAt
+	Reply     c19Reply `json:"reply"`
+}
+
+type c19TimedRun struct {
+	tc   *c19Timed
+	stop chan struct{}
+}
+
+type c19TimedObs struct {
+	kind      string // ok | err | toomany | panic | never
+	id, secs  int64
+	inBound   bool
+	elapsedMs int64
+}
+
+func (run *c19TimedRun) serve(w http.ResponseWriter, r *http.Request) {
+	tc := run.tc
+	t0 := time.Now()
+	// false: the client went away or the harness gave up
+	until := func(ms int) bool {
+		var tm <-chan time.Time
+		if ms >= 0 {
+			d := time.Until(t0.Add(time.Duration(ms) * time.Millisecond))
+			if d <= 0 {
+				return true
+			}
+			tm = time.After(d)
+		}
+		select {
+		case <-tm:
+			return true
+		case <-r.Context().Done():
+		case <-run.stop:
+		}
+		return false
+	}
+	if !until(tc.HeadersMs) {
+		panic(http.ErrAbortHandler)
+	}
+	c19WriteHead(w, tc.Reply)
+	w.WriteHeader(tc.Reply.Status)
+	text := []byte(tc.Reply.Body.text())
+	if tc.StallAt < 0 || tc.StallAt >= len(text) {
+		_, _ = w.Write(text)
+		return
+	}
+	_, _ = w.Write(text[:tc.StallAt])
+	w.(http.Flusher).Flush()
+	if tc.TrickleMs <= 0 {
+		until(-1)
+		panic(http.ErrAbortHandler)
+	}
+	for i := tc.StallAt; i < len(text); i++ {
+		if !until(int(time.Since(t0)/time.Millisecond) + tc.TrickleMs) {
+			panic(http.ErrAbortHandler)
+		}
+		if _, err := w.Write(text[i : i+1]); err != nil {
+			return
+		}
+		w.(http.Flusher).Flush()
+	}
+}
+
+func c19TimedBound(tc *c19Timed) time.Duration {
+	return 3*time.Duration(tc.TimeoutMs)*time.Millisecond + 3*time.Second
+}
+
+var c19TimedSeq = struct {
+	sync.Mutex
+	n int
+}{}
+
+func (s *c19Server) runTimed(tc *c19Timed) c19TimedObs {
+	obs := &c19TimedObs{} // written by the calling goroutine only, read after `done`
+	c19TimedSeq.Lock()
+	c19TimedSeq.n++
+	id := c19TimedSeq.n
+	c19TimedSeq.Unlock()
+	run := &c19TimedRun{tc: tc, stop: make(chan struct{})}
+	s.mu.Lock()
+	s.timed[id] = run
+	s.mu.Unlock()
+	defer func() {
+		s.mu.Lock()
+		delete(s.timed, id)
+		s.mu.Unlock()
+	}()
+	done := make(chan struct{})
+	start := time.Now()
+	go func() {
+		defer close(done)
+		defer func() {
+			if r := recover(); r != nil {
+				obs.kind = "panic"
+			}
+		}()
+		url := c19URL
+		wh := &v1alpha1.Webhook{URL: &url, ResponseUnmarshallMode: c19Mode(tc.Mode),
+			Timeout: &metav1.Duration{Duration: time.Duration(tc.TimeoutMs) * time.Millisecond}}
+		if tc.Etag {
+			on := true
+			wh.Etag = &v1alpha1.WebhookEtagConfig{Enabled: &on}
+		}
+		e, err := NewWebhookExecutor(wh, "c19", common.CompositeController, common.SyncHook)
+		if err != nil {
+			obs.kind = "err"
+			return
+		}
+		exec := e.(*webhookExecutor)
+		exec.now = func() time.Time { return c19Base.Add(250 * time.Millisecond) }
+		var resp compositev1.CompositeHookResponse
+		err = exec.Call(&c19Request{Timed: id, Parent: c19Parent(7)}, &resp)
+		var tm *TooManyRequestError
+		switch {
+		case err == nil:
+			obs.kind, obs.id = "ok", -1
+			switch v := resp.Status["a"].(type) {
+			case int64:
+				obs.id = v
+			case float64:
+				obs.id = int64(v)
+			}
+		case errors.As(err, &tm):
+			obs.kind, obs.secs = "toomany", int64(tm.AfterSecond)
+		default:
+			obs.kind = "err"
+		}
+	}()
+	bound := c19TimedBound(tc)
+	select {
+	case <-done:
+		el := time.Since(start)
+		obs.elapsedMs = int64(el / time.Millisecond)
+		obs.inBound = el <= bound
+		return *obs
+	case <-time.After(bound + 2*time.Second): // watchdog: the call is stuck
+	}
+	close(run.stop) // the handler aborts the connection, which unblocks the client
+	select {
+	case <-done:
+	case <-time.After(10 * time.Second):
+	}
+	return c19TimedObs{kind: "never", elapsedMs: int64(time.Since(start) / time.Millisecond)}
+}
+
+func (tc *c19Timed) coq(o c19TimedObs) string {
+	opt := func(ms int) string {
+		if ms < 0 {
+			return "None"
+		}
+		return "(Some " + vh.CoqZ(int64(ms)) + ")"
+	}
+	out := "INotRun"
+	switch o.kind {
+	case "ok":
+		out = "(IOk " + vh.CoqZ(o.id) + ")"
+	case "err":
+		out = "IErr"
+	case "toomany":
+		out = "(ITooMany " + vh.CoqZ(o.secs) + ")"
+	case "panic":
+		out = "IPanic"
+	case "never":
+		out = "INeverReturned"
+	}
+	rp := tc.Reply.coq(250)
+	rp = strings.TrimSuffix(strings.TrimPrefix(rp, "(Reply "), ")")
+	return fmt.Sprintf("mkC19T %s %s %s %s %s %s %s %s", vh.CoqBool(tc.Etag), vh.CoqBool(tc.Mode == "strict"),
+		vh.CoqZ(int64(tc.TimeoutMs)), opt(tc.HeadersMs), opt(tc.DoneMs), rp, out, vh.CoqBool(o.inBound))
+}
+
+// is the part of the exchange the client needs over within the timeout? (mirrors exchange_in_time)
+func (tc *c19Timed) inTime() bool {
+	in := func(ms int) bool { return ms >= 0 && ms <= tc.TimeoutMs }
+	return in(tc.HeadersMs) && (tc.Reply.Status == 429 || in(tc.DoneMs))
+}
+
+// scenarios x ETag support on/off; scripted times are far from the timeout (>= 4x or <= 1/10)
+func c19TimedCases() []*c19Timed {
+	var out []*c19Timed
+	ok200 := func(id int64) c19Reply {
+		return c19Reply{Status: 200, ETag: "e2", RA: "absent", Body: c19Body{ID: id, Class: "valid"}}
+	}
+	for i, etag := range []bool{false, true} {
+		short := []int{250, 300}[i]
+		mode := []string{"loose", "strict"}[i]
+		bodyLen := len(ok200(20).Body.text())
+		out = append(out,
+			// no answer at all
+			&c19Timed{Scenario: "no-answer", Etag: etag, Mode: mode, TimeoutMs: short, HeadersMs: -1, DoneMs: -1, StallAt: -1, Reply: ok200(20)},
+			// the complete answer, but long after the timeout
+			&c19Timed{Scenario: "headers-late", Etag: etag, Mode: mode, TimeoutMs: short, HeadersMs: short + 1200, DoneMs: short + 1200, StallAt: -1, Reply: ok200(20)},
+			// status line, headers and half of the body at once, then silence
+			&c19Timed{Scenario: "body-stalls", Etag: etag, Mode: mode, TimeoutMs: short, HeadersMs: 0, DoneMs: -1, StallAt: bodyLen / 2, Reply: ok200(20)},
+			// headers at once, the body one byte per 100 ms: complete only after seconds
+			&c19Timed{Scenario: "body-trickles", Etag: etag, Mode: mode, TimeoutMs: short, HeadersMs: 0, DoneMs: 100 * bodyLen, StallAt: 0, TrickleMs: 100, Reply: ok200(20)},
+			// a 304 whose (empty) body never ends: without an If-None-Match sent it is an error either way
+			&c19Timed{Scenario: "no-answer-304", Etag: etag, Mode: mode, TimeoutMs: short, HeadersMs: -1, DoneMs: -1, StallAt: -1,
+				Reply: c19Reply{Status: 304, RA: "absent", Body: c19Body{ID: 63, Class: "invalid"}}},
+			// 429 is answered from the headers: a stalling body does not matter
+			&c19Timed{Scenario: "429-body-stalls", Etag: etag, Mode: mode, TimeoutMs: short, HeadersMs: 0, DoneMs: -1, StallAt: 5,
+				Reply: c19Reply{Status: 429, RA: "num", RAN: 7, Body: c19Body{ID: 20, Class: "valid"}}},
+			// the complete answer well inside a long timeout: must succeed
+			&c19Timed{Scenario: "inside", Etag: etag, Mode: mode, TimeoutMs: 3000, HeadersMs: 150, DoneMs: 150, StallAt: -1, Reply: ok200(20)},
+			// complete, slowly but inside: headers at once, the body in two parts 200 ms apart
+			&c19Timed{Scenario: "inside-two-parts", Etag: etag, Mode: mode, TimeoutMs: 3000, HeadersMs: 0, DoneMs: 200, StallAt: bodyLen - 1, TrickleMs: 200, Reply: ok200(20)},
+		)
+	}
+	return out
+}
+
+// run all timed cases at once (each waits on timers most of the time) and judge one-sidedly;
+// an attempt that only the machine's load can explain (late error, failed `inside`) is repeated
+func c19RunTimedAll(s *c19Server, cases []*c19Timed) []c19TimedObs {
+	res := make([]c19TimedObs, len(cases))
+	var wg sync.WaitGroup
+	for i, tc := range cases {
+		wg.Add(1)
+		go func(i int, tc *c19Timed) {
+			defer wg.Done()
+			for attempt := 0; attempt < 3; attempt++ {
+				o := s.runTimed(tc)
+				res[i] = o
+				loadExplains := (tc.inTime() && o.kind == "err") || (!tc.inTime() && o.kind == "err" && !o.inBound)
+				if !loadExplains {
+					return
+				}
+			}
+		}(i, tc)
+	}
+	wg.Wait()
+	return res
+}
+
 // ---------------------------------------------------------------- the test
 
 func TestVerif_C19(t *testing.T) {
@@ -1171,9 +1530,10 @@ func TestVerif_C19(t *testing.T) {
 		t.Skip("VERIF_OUT not set")
 	}
 	logging.Logger = logr.Discard()
-	router := &c19Router{}
+	router := c19NewServer()
+	defer router.srv.Close()
 	oldTransport := http.DefaultTransport
-	http.DefaultTransport = router
+	http.DefaultTransport = router.transport()
 	defer func() { http.DefaultTransport = oldTransport }()
 
 	header := "From MC Require Import Check.C19_check.\nOpen Scope string_scope.\n"
@@ -1191,6 +1551,7 @@ func TestVerif_C19(t *testing.T) {
 	}
 	// enumIdx >= 0: the case is element enumIdx of its family's enumeration (the replay record stays small)
 	emit := func(id string, cs *c19Case, seed uint64, enumIdx int) {
+		cs.fitForHTTP()
 		if err := cs.validate(); err != nil {
 			t.Fatalf("case %s: %v", id, err)
 		}
@@ -1301,7 +1662,7 @@ func TestVerif_C19(t *testing.T) {
 					w.Count("replay-" + fmt.Sprint(c.Reply.Status) + "-of-" + cl + "-body-mode-" + cs.Mode)
 				}
 			}
-			if s.started && !c.Reply.Transport && !s.closed {
+			if s.started && !cs.Public && !c.Reply.Transport && !s.closed {
 				w.Count("response-body-not-closed")
 			}
 			if s.nsent > 1 {
@@ -1320,13 +1681,26 @@ func TestVerif_C19(t *testing.T) {
 		}
 		var rf struct {
 			Case struct {
-				Spec  *c19Case `json:"spec"`
-				Enum  string   `json:"enum"`
-				Index int      `json:"index"`
+				Spec  *c19Case  `json:"spec"`
+				Timed *c19Timed `json:"timed"`
+				Enum  string    `json:"enum"`
+				Index int       `json:"index"`
 			} `json:"case"`
 		}
 		if err := json.Unmarshal(data, &rf); err != nil {
 			t.Fatal(err)
+		}
+		if rf.Case.Timed != nil {
+			for i, o := range c19RunTimedAll(router, []*c19Timed{rf.Case.Timed}) {
+				if err := w.Add("replay", rf.Case.Timed.coq(o), "C19_timed_check", map[string]interface{}{"timed": rf.Case.Timed, "observed": o.kind}); err != nil {
+					t.Fatal(err)
+				}
+				_ = i
+			}
+			if err := w.Close(nil); err != nil {
+				t.Fatal(err)
+			}
+			return
 		}
 		cs := rf.Case.Spec
 		switch rf.Case.Enum {
@@ -1354,6 +1728,26 @@ func TestVerif_C19(t *testing.T) {
 	for i, cs := range c19Corpus() {
 		emit(fmt.Sprintf("k%d", i), cs, 0, -1)
 	}
+	emitTimed := func(prefix string, cases []*c19Timed) {
+		for i, o := range c19RunTimedAll(router, cases) {
+			tc := cases[i]
+			feats := []string{"family-timed", "timed-" + tc.Scenario}
+			def := tc.coq(o)
+			if err := w.Add(fmt.Sprintf("%s%d", prefix, i), def, "C19_timed_check",
+				map[string]interface{}{"features": feats, "timed": tc, "observed": o.kind, "elapsedMs": o.elapsedMs}); err != nil {
+				t.Fatal(err)
+			}
+			w.Count("family-timed")
+			w.Count("timed-" + tc.Scenario)
+			w.Count("timed-outcome-" + o.kind)
+			if !o.inBound && o.kind != "never" {
+				w.Count("timed-returned-late")
+			}
+			w.Count("via-NewWebhookExecutor")
+			w.NonTrivial(fmt.Sprintf("timed|%s|%v|%s|%d", tc.Scenario, tc.Etag, tc.Mode, tc.TimeoutMs))
+		}
+	}
+	emitTimed("w", c19TimedCases())
 	n := env.N
 	if n == 0 {
 		n = 600
